@@ -107,3 +107,25 @@ class CountNodes(NodeCountMapper):
     @property
     def calls(self):
         return self.count
+
+
+class SumReverser(CachedIdentityMapper):
+    """Overrides the TARGET of an inherited alias (IdentityMapper.map_product = map_sum) but not the alias: products keep the base behaviour."""
+
+    def map_sum(self, expr):
+        self.calls = getattr(self, "calls", 0) + 1
+        return prim.Sum(tuple(self.rec(c) for c in reversed(expr.children)))
+
+    def get_cache_key(self, expr):
+        return (type(expr), expr)
+
+
+class QuotientSwapper(CachedIdentityMapper):
+    """Same for map_quotient (alias target of map_floor_div / map_remainder)."""
+
+    def map_quotient(self, expr):
+        self.calls = getattr(self, "calls", 0) + 1
+        return prim.Quotient(self.rec(expr.denominator), self.rec(expr.numerator))
+
+    def get_cache_key(self, expr):
+        return (type(expr), expr)
